@@ -32,11 +32,10 @@ OWNERS = {
     'latexnodes/parsers/_verbatim.py': ['C01', 'C02', 'C05', 'C06'],
     'latexnodes/_callablespecbase.py': ['C02'],
     'latexwalker/_walker.py': ['C16', 'C20', 'C06', 'C05', 'C09'],
-    'latexwalker/_helpers.py': ['C16', 'C20'],
     'latexwalker/_defaultspecs.py': ['C02', 'C07'],
-    'latex2text/__init__.py': ['C03', 'C07', 'C12', 'C15', 'C08'],
+    'latex2text/__init__.py': ['C03', 'C12', 'C07'],
     'latex2text/_inputlatexfile.py': ['C15'],
-    'latex2text/_defaultspecs.py': ['C03', 'C07', 'C08', 'C12'],
+    'latex2text/_defaultspecs.py': ['C03', 'C08', 'C07'],
     'latexencode/_unicode_to_latex_encoder.py': ['C04', 'C13', 'C08'],
     'latexencode/_partial_latex_encoder.py': ['C04'],
     'latexencode/get_builtin_rules.py': ['C04', 'C13'],
@@ -251,18 +250,17 @@ def main():
             done.add((r['file'], r['a'], r['after']))
     root = tempfile.mkdtemp(prefix='mutsweep.', dir='/tmp')
     try:
+        import threading
+        sem = threading.Semaphore(3)
+        lock = threading.Lock()
+        out = open(a.out, 'a')
+
         def stage1(m):
             d = make_scratch(m, root)
             t = run_tests(d)
-            if t != 'pass':
-                shutil.rmtree(d, ignore_errors=True)
-                d = None
-            return m, t, d
-        todo = [m for m in sample if (m['file'], m['a'], m['after']) not in done]
-        with ThreadPoolExecutor(a.jobs) as ex, open(a.out, 'a') as out:
-            for m, t, d in ex.map(stage1, todo):
-                rec = dict(m, tests=t, checks={}, caught_by=None)
-                if d is not None:
+            rec = dict(m, tests=t, checks={}, caught_by=None)
+            if t == 'pass':
+                with sem:
                     for c in OWNERS[m['file']]:
                         rc, v = run_check(d, c)
                         rec['checks'][c] = rc
@@ -270,9 +268,14 @@ def main():
                             rec['caught_by'] = c
                             rec['violation'] = v
                             break
-                    shutil.rmtree(d, ignore_errors=True)
+            shutil.rmtree(d, ignore_errors=True)
+            with lock:
                 out.write(json.dumps(rec) + '\n')
                 out.flush()
+        todo = [m for m in sample if (m['file'], m['a'], m['after']) not in done]
+        with ThreadPoolExecutor(a.jobs) as ex:
+            list(ex.map(stage1, todo))
+        out.close()
     finally:
         shutil.rmtree(root, ignore_errors=True)
 
